@@ -592,6 +592,19 @@ where
             let (s, h) = reload::Subscriber::new(Box::new(l(2)));
             drive_conc(env, mk().with(l(1)).with(s).with(l(3)), Some(hold_modify(h)), ops, bound_ms)
         }
+        // the whole stack behind a collector wrapper (Box<C> / Arc<C> have no lock of their own: they must simply forward to the waiting stack)
+        "cbox_mid_reload" => {
+            let (s, h) = reload::Subscriber::new(l(2));
+            drive_conc(env, Box::new(mk().with(l(1)).with(s).with(l(3))), Some(hold_modify(h)), ops, bound_ms)
+        }
+        "carc_mid_reload" => {
+            let (s, h) = reload::Subscriber::new(l(2));
+            drive_conc(env, Arc::new(mk().with(l(1)).with(s).with(l(3))), Some(hold_modify(h)), ops, bound_ms)
+        }
+        "cbox_under_reload" => {
+            let (s, h) = reload::Subscriber::new(l(2));
+            drive_conc(env, Box::new(mk().with(l(1))).with(s).with(l(3)), Some(hold_modify(h)), ops, bound_ms)
+        }
         "fp_reload" => {
             let (s, h) = reload::Subscriber::new(f(1));
             drive_conc(env, mk().with(Probe(s)), Some(hold_modify(h)), ops, bound_ms)
